@@ -52,6 +52,21 @@ func VerifDecompressCert(advertised []CertCompressionAlgo, algorithm uint16, unc
 	return res
 }
 
+// VerifDecompressCertOn calls decompressCert on a UConn the caller has configured through the public API
+// (ApplyPreset / BuildHandshakeState ...), so that the accepted algorithms are whatever that configuration left
+// in the connection. The alert, if any, is written to the caller's net.Conn; Alert is left at -1 here.
+func VerifDecompressCertOn(uconn *UConn, algorithm uint16, uncompressedLength uint32, compressed []byte) VerifC21Result {
+	hs := &clientHandshakeStateTLS13{c: uconn.Conn, uconn: uconn}
+	m := utlsCompressedCertificateMsg{algorithm: algorithm, uncompressedLength: uncompressedLength, compressedCertificateMessage: compressed}
+	cm, err := hs.decompressCert(m)
+	res := VerifC21Result{Err: err, Alert: -1}
+	if cm != nil {
+		res.Msg, _ = cm.marshal()
+		res.Certs = cm.certificate.Certificate
+	}
+	return res
+}
+
 func VerifCompressedCertMarshal(algorithm uint16, uncompressedLength uint32, data []byte) ([]byte, error) {
 	m := utlsCompressedCertificateMsg{algorithm: algorithm, uncompressedLength: uncompressedLength, compressedCertificateMessage: data}
 	return m.marshal()
